@@ -119,7 +119,15 @@ def fill(x, values):
     return x
 
 
+LINES = [".", "..", ".x", "a", ";", "discard;", "", "text:", '"', "\\", "}", "é"]
+
+
 def hostile_value(r, pieces=PIECES):
+    if pieces is PIECES and r.random() < 0.15:
+        # line-structured values (complete lines, lone dots, CR before LF): what a multi-line rendering must dot-stuff
+        v = "".join(r.choice(LINES) + r.choice(["\n", "\n", "\r\n", "\r"]) for _ in range(r.randint(1, 3)))
+        if not v.startswith(('"', "'", ":", "not")):
+            return v
     while True:
         v = "".join(r.choice(pieces) for _ in range(r.randint(1, 4)))
         # a leading quote is "already quoted" for the factory (outside the claim); a leading ':' makes an action
